@@ -205,11 +205,14 @@ def c10_documents(run):
                 acc.fail(label, f"parse() raised {type(ex).__name__} (not in the schema-parse family)")
         big = 10 ** 5000
         for S in [{"maximum": 1}, {"type": "integer", "minimum": 0}, {"const": 1}, {"enum": [1]}, {"type": "string"}, {"multipleOf": 3}, {"type": "number"}, {"type": ["number", "null"]}, {"items": {"type": "number"}},
+                  {"uniqueItems": True}, {"type": "array", "uniqueItems": True}, {"properties": {"a": {"uniqueItems": True}}}, {"not": {"uniqueItems": True}}, {"contains": {"uniqueItems": True}},
+                  {"enum": [[1], [2]]}, {"const": [[1]]},
                   {"properties": {"a": {"type": "number"}}}, {"anyOf": [{"type": "number"}, {"type": "string"}]}, {"type": "number", "maximum": 1},
                   {"oneOf": [{"type": "integer"}, {"type": "number"}]}, {"oneOf": [{}, {}]}, {"not": {"type": "integer"}}, {"not": {}},
                   {"anyOf": [{"type": "string"}, {"maximum": 1}]}, {"allOf": [{"type": "integer"}, {"maximum": 1}]},
                   {"properties": {"a": {"oneOf": [{"type": "integer"}, {"minimum": 0}]}}}, {"items": {"not": {"minimum": 0}}}]:
-            edge = [("2**1024-1", 2 ** 1024 - 1), ("-(2**1024-1)", -(2 ** 1024 - 1)), ("2**1024-2**970", 2 ** 1024 - 2 ** 970), ("2**1024-2**970-1", 2 ** 1024 - 2 ** 970 - 1),
+            edge = [("[[10**5000],[1]]", [[big], [1]]), ("[10**5000, {}]", [big, {}]), ("[{'a': 10**5000}, {'a': 1}]", [{"a": big}, {"a": 1}]), ("[[10**5000],[10**5000]]", [[big], [big]]),
+                    ("2**1024-1", 2 ** 1024 - 1), ("-(2**1024-1)", -(2 ** 1024 - 1)), ("2**1024-2**970", 2 ** 1024 - 2 ** 970), ("2**1024-2**970-1", 2 ** 1024 - 2 ** 970 - 1),
                     ("2**1024", 2 ** 1024), ("2**1023", 2 ** 1023), ("[2**1024-1]", [2 ** 1024 - 1]), ("{'a': 2**1024-1}", {"a": 2 ** 1024 - 1}), ("1.7976931348623157e308", 1.7976931348623157e308)]
             for label, v in [("10**5000", big), ("-10**5000", -big), ("[10**5000]", [big]), ("{'a': 10**5000}", {"a": big})] + edge:
                 key = f"{jkey(S)} <- {label}"
@@ -381,6 +384,21 @@ def c07_defaults(run):
                                 acc.fail(key + " [python]", f"generated class default {getattr(obj, 'default', None)!r} != parsed {E.default!r}")
                 except Exception as e:
                     acc.fail(key + " [python]", f"generated module failed: {type(e).__name__}: {e}")
+        # after all of the above has been parsed in this process: schemas that declare no default carry none (no default leaks
+        # from one parse into another through shared state)
+        for clean in [{"anyOf": [{"type": "string"}, {"type": "integer"}]}, {"allOf": [{}]}, {"oneOf": [True]}, {"not": {"type": "null"}}, {"anyOf": [{}]},
+                      {"allOf": [{"type": "string"}], "minLength": 1}, {"type": ["string", "null"]}, {"type": "object", "title": "Clean", "properties": {"p": {"oneOf": [{}, {"type": "null"}]}}},
+                      {"type": "string"}, {}, {"items": {"anyOf": [True]}}]:
+            key = "no default declared: " + jkey(clean)
+            acc.case(key)
+            try:
+                E = parse_element(copy.deepcopy(clean))
+                J = serialize_json(E)
+            except Exception as e:
+                acc.fail(key, f"{type(e).__name__}: {e}")
+                continue
+            if '"default"' in jkey(J):
+                acc.fail(key, f"schema declares no default but its parsed element serialises with one: {jkey(J)[:200]}")
         # the same sub-schema *object* referenced from several places (what dereferencing a document with several $ref to one
         # definition produces): every place must carry the default
         for S0 in docs[::2]:
@@ -747,6 +765,13 @@ def c05_defaults(run):
             yield lambda: Object.inline("NoneDefault", default=None)
             yield lambda: Object.inline("Extra", properties={"a": Property(String())}, additionalProperties=False, default={"b": 1})
             yield lambda: Object.inline("Valid", properties={"a": Property(String())}, default={"a": "x"})
+            # defaults that omit declared (defaulted / renamed) properties: the default itself must stay what was declared
+            yield lambda: Object.inline("OmitsInvalid", properties={"value": Property(String()), "note": Property(String(default="n/a"), source="the-note")}, default={"value": 3})
+            yield lambda: Object.inline("Flags", properties={"a": Property(String(default="x")), "b": Property(String(default="y"))}, default={}, maxProperties=1)
+            yield lambda: Object.inline("ConstDefault", properties={"a": Property(String(default="x"))}, default={}, const={})
+            from statham.schema.elements import Element as _E
+            yield lambda: _E(properties={"port": Property(Integer()), "host": Property(String(default="h"))}, default={"port": "eighty"})
+            yield lambda: _E(properties={"a": Property(String(default="x")), "b": Property(Integer(default=1))}, default={}, maxProperties=0)
         extra_cases = []
         for mk in class_defaults():
             try:
